@@ -7,6 +7,7 @@ use super::{FileFilter, FileScanner};
 use super::{ScanResult, StructureScanConfig};
 use crate::checker::{DirStats, StructureViolation};
 use crate::error::Result;
+use crate::state::is_own_state_entry;
 
 pub struct DirectoryScanner<F: FileFilter> {
     filter: F,
@@ -85,6 +86,10 @@ impl<F: FileFilter> DirectoryScanner<F> {
         let mut state = StructureScanState::new(structure_config);
         // Use filter_entry to skip excluded directories entirely (prunes subtree)
         let walker = WalkDir::new(root).into_iter().filter_entry(|e| {
+            // The tool's own state files are not entries of the project
+            if e.depth() > 0 && is_own_state_entry(e.file_name(), e.file_type().is_dir()) {
+                return false;
+            }
             if e.file_type().is_dir()
                 && let Some(cfg) = structure_config
             {
@@ -131,8 +136,13 @@ impl<F: FileFilter> DirectoryScanner<F> {
             .hidden(false)
             .parents(true)
             .filter_entry(move |e| {
+                // The tool's own state files are not entries of the project
+                let is_dir = e.file_type().is_some_and(|ft| ft.is_dir());
+                if e.depth() > 0 && is_own_state_entry(e.file_name(), is_dir) {
+                    return false;
+                }
                 // Skip excluded directories entirely (prunes subtree)
-                if e.file_type().is_some_and(|ft| ft.is_dir())
+                if is_dir
                     && let Some(ref cfg) = config_for_filter
                 {
                     return !cfg.is_scanner_excluded(e.path(), true);
